@@ -1256,6 +1256,47 @@ def render_env(src: str, parts: dict[str, str], data: dict[str, Any], pol: str, 
     return _probe_outcome(o) if pol == "P" else o
 
 
+class IntDrop:
+    """docs/variables_and_drops.md: a data object that acts as an array index
+    and compares like a number through the __liquid__ hook."""
+
+    def __init__(self, val: int, text: str = "drop"):
+        self.val = val
+        self.text = text
+
+    def __int__(self) -> int:
+        return self.val
+
+    def __str__(self) -> str:
+        return self.text
+
+    def __liquid__(self) -> int:
+        return self.val
+
+
+class KeyDrop:
+    """A data object that converts itself to a string key."""
+
+    def __init__(self, key: str):
+        self.key = key
+
+    def __str__(self) -> str:
+        return self.key
+
+    def __liquid__(self) -> str:
+        return self.key
+
+
+class NilDrop:
+    """A data object whose Liquid value is nil."""
+
+    def __str__(self) -> str:
+        return ""
+
+    def __liquid__(self) -> None:
+        return None
+
+
 def beyond_directed() -> list[tuple]:
     """Outside the modelled fragment, never sampled: (source, partials, data,
     every reference resolves, equivalent source without the boundary | None).
@@ -1276,7 +1317,12 @@ def beyond_directed() -> list[tuple]:
         items, lambda parameters, case / translate / cycle / ternary operands,
         environment and template globals): nil is a value, nothing is missing,
         no policy raises, and every policy prints the stated text (the
-        'equivalent source' is then the literal expected output)."""
+        'equivalent source' is then the literal expected output);
+    (d) data objects that implement the documented drop hook __liquid__ (an
+        int index, a str key, nil): bracketed path segments over lists, hashes
+        and strings, nested, through every boundary, and where a number or a
+        key is expected (comparisons, case, range bounds, for limit / offset,
+        filter arguments, tablerow, cycle, translate count)."""
     out: list[tuple] = []
     base = {"l": [1, 2, 3, 4], "n": 2, "s": "ab", "who": "W",
             "ld": [{"a": 1, "c": "x"}, {"a": 2, "c": "y"}, {"a": 1, "c": "z"}], "d": {"k": 2}}
@@ -1387,6 +1433,52 @@ def beyond_directed() -> list[tuple]:
                        "{{ title | default: sub }}{{ title | append: sub }}", None),
                       ("{% capture x %}{% endcapture %}{{ x | default: 'd' }}{% assign x = sub | default: nil %}" + B, "d" + NIL)):
         out.append((form, nparts, dict(nd), True, exp))
+    # (d) data objects with the documented drop hook __liquid__ as bracketed path segments
+    # (int index, str key), nested, and where a number / key is expected elsewhere
+    dd = {"arr": [10, 20, 30], "h": {"k": "v", "size": 9, "n": {"m": 5}, "first": "F"}, "idx": {"k": IntDrop(2)},
+          "lh": [{"k": 1}, {"k": None}, {"j": 2}], "i0": IntDrop(0), "i1": IntDrop(1), "im": IntDrop(-1), "i9": IntDrop(9),
+          "ks": KeyDrop("k"), "kn": KeyDrop("n"), "km": KeyDrop("m"), "kz": KeyDrop("zz"), "ksize": KeyDrop("size"),
+          "kfirst": KeyDrop("first"), "klast": KeyDrop("last"), "nd": NilDrop(), "s": "hello"}
+    dparts = {"p": "{{ h[k] }}|{{ arr[i] }}", "lp": "{{ a[i] }};"}
+    for src, exp in (
+            ("{{ arr[i1] }}", "20"), ("{{ arr[i0] }}|{{ arr[im] }}", "10|30"), ("{{ h[ks] }}", "v"), ("{{ h[kn][km] }}|{{ h[kn].m }}", "5|5"),
+            ("{{ arr[idx[ks]] }}|{{ arr[idx.k] }}", "30|30"), ("{{ arr[ksize] }}|{{ h[ksize] }}|{{ s[ksize] }}", "3|9|5"),
+            ("{{ arr[kfirst] }}|{{ arr[klast] }}|{{ h[kfirst] }}", "10|30|F"), ("{{ s[i1] }}|{{ s[im] }}", "e|o"),
+            ("{{ lh[i0][ks] }}|{{ lh[i0].k }}|{{ lh[i1][ks] | default: 'd' }}", "1|1|d"),
+            ("{% assign v = arr[i1] %}{{ v | plus: 1 }}|{% if arr[i1] == 20 %}T{% else %}F{% endif %}|{{ arr[i1] | default: 'd' }}", "21|T|20"),
+            ("{% for x in arr %}{{ arr[i1] }}{{ h[ks] }};{% endfor %}", "20v;20v;20v;"),
+            ("{% for x in lh %}{{ x[ks] | default: '-' }}{% endfor %}", "1--"),
+            ("{{ arr[i1] | append: h[ks] }}|{{ 'x' if h[ks] == 'v' else 'y' }}|{% case arr[i0] %}{% when 10 %}ten{% endcase %}", "20v|x|ten"),
+            ("{% render 'p', h: h, arr: arr, k: ks, i: i1 %}", "v|20"), ("{% include 'p', k: kn, i: im %}", None),
+            ("{% render 'lp' for arr as x, a: arr, i: i1 %}", "20;20;20;"),
+            ("{% macro f, a, i %}{{ a[i] }}{% endmacro %}{% call f, arr, i1 %}|{% call f, a: h, i: ks %}", "20|v"),
+            ("{% with i: i1, k: ks %}{{ arr[i] }}{{ h[k] }}{% endwith %}", "20v"),
+            ("{% capture c %}{{ arr[i1] }}{% endcapture %}{{ c }}|{% echo h[ks] %}", "20|v"),
+            ("{{ arr | map: x => arr[i1] | join: ',' }}|{{ lh | where: x => x[ks] | size }}|{{ lh | map: x => x[ks] | compact | size }}", "20,20,20|1|1"),
+            ("{% tablerow x in arr %}{{ arr[i0] }}{% endtablerow %}", None),
+            # the drop where a number is expected: comparisons, range bounds, loop arguments, filter arguments
+            ("{% if i1 < 10 %}lt{% endif %}|{% if i1 == 1 %}eq{% endif %}|{% if i1 >= i0 %}ge{% endif %}|{% if i1 %}T{% endif %}", "lt|eq|ge|T"),
+            ("{% if nd == nil %}N{% else %}V{% endif %}|{% if nd %}T{% else %}F{% endif %}|{{ nd | default: 'd' }}|{% unless nd %}U{% endunless %}", "N|F|d|U"),
+            ("{% case i1 %}{% when 1 %}one{% else %}other{% endcase %}|{% case 1 %}{% when i0, i1 %}hit{% endcase %}", "one|hit"),
+            ("{% for x in (i1..3) %}{{ x }}{% endfor %}|{% for x in (0..i1) %}{{ x }}{% endfor %}|{{ (i0..i1) | size }}", "123|01|2"),
+            ("{% for x in arr limit: i1 %}{{ x }}{% endfor %}|{% for x in arr offset: i1 %}{{ x }}{% endfor %}|"
+             "{% for x in arr limit: i1 offset: i1 %}{{ x }}{% endfor %}", "10|2030|20"),
+            ("{{ arr | slice: i1 | join: ',' }}|{{ arr | slice: i0, i1 | join: ',' }}|{{ s | slice: i1, i1 }}|{{ s | truncate: i1, '' }}", None),
+            ("{{ 5 | plus: i1 }}|{{ 5 | times: i1 }}|{{ 5 | at_least: i9 }}|{{ 7 | round: i1 }}|{{ s | truncatewords: i1 }}", None),
+            ("{{ arr | join: ks }}|{{ 'a' | append: ks }}|{{ 'a' | prepend: ks }}", "10k20k30|ak|ka"),
+            ("{{ lh | map: ks | join: ',' }}", None), ("{{ lh | where: ks | size }}", None), ("{{ lh | sum: ks }}", None),
+            ("{{ lh | sort: ks | size }}", None), ("{{ lh | compact: ks | size }}", None), ("{{ lh | find: ks | json }}", None),
+            ("{% tablerow x in arr cols: i1 %}{{ x }}{% endtablerow %}", None), ("{% tablerow x in arr limit: i1 %}{{ x }}{% endtablerow %}", None),
+            ("{% cycle i1: 'a', 'b' %}{% cycle i1: 'a', 'b' %}|{% cycle ks, 'b' %}", None),
+            ("{% translate count: i1 %}one{% plural %}many{% endtranslate %}|{% translate count: i0 %}one{% plural %}many{% endtranslate %}", None),
+            ("{{ i1 }}|{{ ks }}|{{ nd }}|{{ i1 | size }}|{{ ks | upcase }}", "drop|k||0|K"), ("{{ i1 | json }}", None)):
+        # x[ks] over lh meets hashes without the key: a genuine (tolerated) miss, the probe aborts there
+        out.append((src, dparts, dict(dd), "x[ks]" not in src, exp))
+    # an index / key that really is out of range or absent: missing, under every hook
+    for src in ("{{ arr[i9] }}", "{{ h[kz] }}", "{{ h[kn][kz] }}", "{{ arr[idx[kz]] }}", "{{ lh[i9][ks] }}", "{{ h[nd] }}", "{{ arr[nd] }}",
+                "{{ arr[i9] | default: 'd' }}|{{ h[kz] | default: 'd' }}", "{% render 'p', h: h, arr: arr, k: kz, i: i9 %}",
+                "{% if arr[i9] %}T{% else %}F{% endif %}|{% if h[kz] == nil %}N{% endif %}"):
+        out.append((src, dparts, dict(dd), False, None))
     # environment and template globals that hold None
     G = "{{ g }}|{{ g | default: 'd' }}|{% if g == nil %}N{% else %}V{% endif %}|{{ g | size }}|{{ g | upcase }}"
     for opts in ({"env_globals": {"g": None}}, {"tmpl_globals": {"g": None}}, {"env_globals": {"g": 1}, "tmpl_globals": {"g": None}},
@@ -1656,6 +1748,15 @@ def main(chk: C.Check, build: C.Build) -> None:
                     o2 = ("ok", equiv) if "{" not in equiv else render_env(equiv, parts, data, pol, asy, **opts)
                     if o2 != outs[pol]:
                         nm = {"D": "Undefined", "S": "StrictUndefined", "F": "FalsyStrictUndefined", "P": "probe"}[pol]
+                        if "{" not in equiv:
+                            if pol == "P" and not complete and outs[pol][0] == "miss":
+                                continue
+                            chk.finding(f"expected-output:{nm}",
+                                        f"{'render_async' if asy else 'render'} under {nm} gives {outs[pol]!r}; the documented result is "
+                                        f"{equiv!r} under every policy (nothing is missing): {src!r}",
+                                        {"source": src, "expected": equiv, "partials": parts, "data": repr(data), "policy": nm,
+                                         "async": asy, "got": outs[pol]})
+                            continue
                         chk.finding(f"boundary-changes-result:{nm}",
                                     f"{'render_async' if asy else 'render'} under {nm}: {outs[pol]!r} across the render/include/call boundary, "
                                     f"{o2!r} for the same body without it: {src!r}",
